@@ -61,6 +61,7 @@ import (
 	coinomicstypes "github.com/haqq-network/haqq/x/coinomics/types"
 	erc20types "github.com/haqq-network/haqq/x/erc20/types"
 	evmtypes "github.com/haqq-network/haqq/x/evm/types"
+	feemarkettypes "github.com/haqq-network/haqq/x/feemarket/types"
 	liquidvestingtypes "github.com/haqq-network/haqq/x/liquidvesting/types"
 	ucdaotypes "github.com/haqq-network/haqq/x/ucdao/types"
 	vestingtypes "github.com/haqq-network/haqq/x/vesting/types"
@@ -206,6 +207,7 @@ type bhGenesis struct {
 	MinDep     [][2]string `json:"mindep,omitempty"` // further coins [denomination, amount] of the gov min deposit beside 10 ISLM
 	NoBurn     int         `json:"noburn,omitempty"` // gov burn switches turned off: 1 quorum, 2 deposit-prevote, 4 veto
 	Hist       *uint32     `json:"hist,omitempty"`   // staking HistoricalEntries (nil = the SDK default, 10000)
+	Fee        *bhFeeMarket `json:"fee,omitempty"`   // fee-market regime: x/feemarket genesis parameters and the consensus block MaxGas (nil = defaults, MaxGas -1); feeregime.go
 }
 
 type bhInput struct {
@@ -336,6 +338,12 @@ func bhGenesisState(a *app.Haqq, g bhGenesis) []byte {
 	eg.Accounts = evmAccs
 	gs[evmtypes.ModuleName] = cdc.MustMarshalJSON(eg)
 
+	if g.Fee != nil {
+		fg := feemarkettypes.DefaultGenesisState()
+		fg.Params = g.Fee.params()
+		gs[feemarkettypes.ModuleName] = cdc.MustMarshalJSON(fg)
+	}
+
 	lg := liquidvestingtypes.DefaultGenesisState()
 	lg.Params.MinimumLiquidationAmount = sdkmath.NewInt(1000)
 	gs[liquidvestingtypes.ModuleName] = cdc.MustMarshalJSON(lg)
@@ -419,7 +427,7 @@ func newReplica(g bhGenesis, o repOpts) *Replica {
 	db := dbm.NewMemDB()
 	a := app.NewHaqq(log.NewNopLogger(), db, nil, true, map[int64]bool{}, home, o.InvCheckPeriod, enc, ao, bopts...)
 	res := a.InitChain(abci.RequestInitChain{
-		ChainId: chainID, Time: genesisTime, ConsensusParams: app.DefaultConsensusParams,
+		ChainId: chainID, Time: genesisTime, ConsensusParams: bhConsensusParams(g),
 		Validators: []abci.ValidatorUpdate{}, AppStateBytes: bhGenesisState(a, g), InitialHeight: 1,
 	})
 	r := &Replica{App: a, Opts: o, TxCfg: enc.TxConfig, Height: 0, Time: genesisTime, DB: db}
@@ -530,6 +538,7 @@ type txResult struct {
 type blockResult struct {
 	Height     int64      `json:"height"`
 	BeginDig   string     `json:"begin_digest"`
+	BaseFee    string     `json:"base_fee,omitempty"` // x/feemarket BaseFee parameter after BeginBlock (named in the report when the BeginBlock responses differ)
 	Txs        []txResult `json:"txs"`
 	ValUpdates []string   `json:"val_updates"`
 	EndDig     string     `json:"end_digest"`
@@ -632,8 +641,11 @@ func (r *Replica) signCosmos(ctx sdk.Context, signer int, gas uint64, msgs ...sd
 		return nil, err
 	}
 	b.SetGasLimit(gas)
-	fee := new(big.Int).Mul(r.baseFee(ctx), new(big.Int).SetUint64(gas))
-	b.SetFeeAmount(sdk.Coins{sdk.NewCoin(utils.BaseDenom, sdkmath.NewIntFromBigInt(fee))})
+	// the fee follows the fee market of the state the transaction is built on: gas x max(base fee, MinGasPrice)
+	fee := new(big.Int).Mul(r.priceFloor(ctx), new(big.Int).SetUint64(gas))
+	if fee.Sign() > 0 {
+		b.SetFeeAmount(sdk.Coins{sdk.NewCoin(utils.BaseDenom, sdkmath.NewIntFromBigInt(fee))})
+	}
 	acc := r.App.AccountKeeper.GetAccount(ctx, bhUserAcc[signer])
 	if acc == nil {
 		return nil, fmt.Errorf("signer account missing")
@@ -657,15 +669,8 @@ func (r *Replica) signCosmos(ctx sdk.Context, signer int, gas uint64, msgs ...sd
 func (r *Replica) signEth(ctx sdk.Context, signer int, to common.Address, value *big.Int, data []byte, gas uint64, dynamic bool) ([]byte, error) {
 	chain := r.App.EvmKeeper.ChainID()
 	nonce := r.App.EvmKeeper.GetNonce(ctx, bhUserEth[signer])
-	bf := r.baseFee(ctx)
 	args := &evmtypes.EvmTxArgs{ChainID: chain, Nonce: nonce, To: &to, Amount: value, GasLimit: gas, Input: data}
-	if dynamic {
-		args.GasFeeCap = new(big.Int).Add(new(big.Int).Mul(bf, big.NewInt(2)), big.NewInt(1))
-		args.GasTipCap = big.NewInt(1)
-		args.Accesses = &ethtypes.AccessList{}
-	} else {
-		args.GasPrice = new(big.Int).Add(bf, big.NewInt(1))
-	}
+	r.ethPrices(ctx, args, dynamic)
 	msg := evmtypes.NewTx(args)
 	msg.From = bhUserEth[signer].Hex()
 	if err := msg.Sign(ethtypes.LatestSignerForChainID(chain), testtx.NewSigner(bhUserKey[signer])); err != nil {
@@ -1088,6 +1093,7 @@ func mustProto(m interface{ Marshal() ([]byte, error) }) []byte {
 
 // stepHooks lets a driver look at the replica between the ABCI calls.
 type stepHooks struct {
+	AfterBeginBlock func(h *histRun, height int64) // after BeginBlock, before the first transaction
 	BeforeEndBlock func(h *histRun, height int64) // after the last DeliverTx (the EndBlockers have not run yet)
 	AfterEndBlock  func(h *histRun, height int64)
 	AfterCommit    func(h *histRun, height int64)
@@ -1134,6 +1140,12 @@ func (h *histRun) runBlock(b *bhBlock, raw *rawBlock, hooks *stepHooks) (blockRe
 		return fail(pan)
 	}
 	br.BeginDig = digest(mustProto(&bres))
+	if bf := r.App.FeeMarketKeeper.GetParams(r.ctx()).BaseFee; !bf.IsNil() {
+		br.BaseFee = bf.String()
+	}
+	if hooks != nil && hooks.AfterBeginBlock != nil {
+		hooks.AfterBeginBlock(h, br.Height)
+	}
 	n := len(b.Txs)
 	if hooks != nil && hooks.GenTx != nil && raw == nil {
 		n = hooks.NTx(b)
